@@ -18,6 +18,10 @@ CLAIMED = {
             "Theorems (Properties_C16.v): for EVERY working directory, GOPATH, GOROOT and absolute location the printed (shortened) location expands back to the original (C16_shorten_resolves; the pre-fix routine is refuted by C16_shorten_substring_refuted); run's exit status is the configured code iff at least one line is printed and the lines are exactly the warnings of the files passing the two filters, each once (C16_run_spec, C16_filter_spec); a standard marker in the first comment group is detected (partial), and the full 'skipped iff generated' statement is refuted in both directions (two recorded findings). Tie: 6000 path layouts (nesting, one path inside another) through both mains' shortenLocation and the model; header comments through isGenerated and the model; synthetic workspaces run with both binaries under flag combinations, stderr lines and exit status compared in Coq with the model's run on warnings computed in-process through the public API. Oracle: every printed location must resolve to an existing file and line:column; exit status vs lines; test/generated filters; no file silently skipped.",
             "Trusted: Coq kernel + vm_compute; bridge tests; CommentGroup.Text() and go/packages loading are inputs, not modelled; loader order abstracted by sorting; Windows separators and Getwd failure not covered.",
             "§5 C16"),
+    "C15": ("Coq theorems over version parsing/comparison and a gate table regenerated from the shipped rule IR and GOROOT/api (translator) + behavioural correspondence per version",
+            "Theorems (Properties_C15.v): the regenerated table of (rule, version gate, recommended std APIs with first Go version) satisfies 'every recommended API is older than 1.13 or covered by the rule's gate' (re-proved by vm_compute on every run) and therefore, for EVERY definite target version V >= 1.13, a rule whose gate admits V recommends only APIs existing in V (C15_no_future_api, unbounded in V); no version = newest; the linter's and the rule engine's comparators coincide and are lexicographic; accepted version strings have the shape <int>.<int> with optional go prefix; all three checker kinds consult the configured version (pre-fix dynamic plumbing refuted). Tie: linter.ParseGoVersion/GreaterOrEqual vs model on generated strings/grid; every gated group run on its positive examples at each version 1.13..newest+1/unset (fires iff gate_ok over the table); a user rule file through the dynamic checker; CLI -go end to end. Oracle: API tokens of diagnostics vs GOROOT/api at version V.",
+            "Trusted: Coq kernel + vm_compute; translator (IR walk, template tokenizer, api parser); ruleguard's filter evaluation is tied behaviourally, not modelled; methods' first version = min over std types.",
+            "§5 C15"),
 }
 
 NOT_APPLICABLE = {}
